@@ -5,6 +5,9 @@
 cd /verif
 names=${*:-$(ls seeded)}
 ok=0; bad=0
+# evidence files describe the UNCHANGED tree: keep them aside while the checks run against patched ones
+rm -rf work/evidence.keep; cp -r evidence work/evidence.keep
+trap 'git -C /repo checkout -- . ; rm -rf evidence; mv work/evidence.keep evidence' EXIT
 for n in $names; do
   p=$(python3 -c "import json; print(json.load(open('seeded/$n/meta.json'))['breaks_property'])")
   git -C /repo apply /verif/seeded/$n/patch.diff || { echo "$n: patch does not apply"; bad=$((bad+1)); continue; }
